@@ -20,7 +20,10 @@ NSHARDS = 16
 
 def shard_args(tier, seed):
     n = BUDGET[tier] // NSHARDS
-    return [{"n": n, "seed": seed * 1000 + i} for i in range(NSHARDS)]
+    shards = [{"n": n, "seed": seed * 1000 + i} for i in range(NSHARDS)]
+    if tier == "thorough":
+        shards.append({"n": 0, "seed": seed, "suite": True})    # the repository's own tests under the M-unfold monitor
+    return shards
 
 
 def floors(m, tier):
@@ -145,6 +148,11 @@ def worker(args):
         return rec.result()
     usable = [t for t in model.templates if vocab.usable(t)]
     from lib import unfoldmodel
+    if args.get("suite"):
+        from lib import suite_shard
+        suite_shard.run_repo_tests(rec)
+        fin()
+        return rec.result()
     for it in range(args["n"]):
         t = usable[it % len(usable)]
         s, info = searchgen.make_search(rng, model, vocab, t, small=rng.random() < 0.5)
